@@ -17,7 +17,8 @@ RULE = ("event streams of 0-6 blocks: optional id (also empty, with NUL), event 
         "non-ASCII digits, 4300/4301 digits), comments, unknown fields, UTF-8 text; every line ends in CRLF, LF or CR "
         "chosen per line (uniform or mixed), streams end with or without the final blank line, possibly on a lone "
         "CR; delivered plain to EventSource, or to Respondent as a close-delimited or chunked (random chunk "
-        "boundaries) text/event-stream response; reads: random cuts, every byte, inside every CRLF, whole.  "
+        "boundaries; every chunk size in a random spelling: lower / UPPER / miXed case hex letters, leading zeros, "
+        "blank padding; chunks from 1 byte to several hundred) text/event-stream response; reads: random cuts, every byte, inside every CRLF, whole.  "
         "Histories: one Respondent over 1-4 consecutive event-stream responses (chunked or close-delimited, complete "
         "or dropped mid-stream / mid-chunk), started with a remembered Last-Event-ID / retry or none, resumed streams "
         "beginning with id-less chunks (comments, data-only events, retry, NUL ids), (.leid, .retry) observed after "
@@ -287,7 +288,7 @@ def avail_body(mode, wire):
         i = wire.find(b"\r\n", pos)
         if i < 0:
             return body
-        n = int(wire[pos:i], 16)
+        n = int(wire[pos:i].strip(b" \t"), 16)
         if n == 0 or len(wire) < i + 2 + n + 2:
             return body
         body += wire[i + 2:i + 2 + n]
@@ -436,8 +437,7 @@ def _gen_case(rng):
         if rng.random() < 0.3:
             pts = sorted(set(pts + [i + 1 for i in range(len(body) - 1) if body[i:i + 2] == b"\r\n"]))
         chunks = K.cut(body, pts)
-        from_hex = lambda n: b"%x" % n
-        wire = b"".join(from_hex(len(c)) + b"\r\n" + c + b"\r\n" for c in chunks) + b"0\r\n\r\n"
+        wire = _enc_chunks(chunks, rng)
         return {"mode": mode, "chunks": [h(c) for c in chunks], "reads": [h(x) for x in K.cut(wire, K._rand_cuts(rng, wire))]}
     cuts = K._rand_cuts(rng, body) if body else []
     inside = [i + 1 for i in range(len(body) - 1) if body[i:i + 2] == b"\r\n"]
@@ -466,7 +466,7 @@ def _gen_conn(rng, idless_first):
         if idless_first and rng.random() < 0.5:
             pts = sorted(set(pts + [i + 1 for i in range(len(body) - 1) if body[i:i + 2] in (b"\n\n", b"\r\r")]))
         chunks = K.cut(body, pts)
-        wire = b"".join(b"%x\r\n" % len(c) + c + b"\r\n" for c in chunks)
+        wire = _enc_chunks(chunks, rng, final=False)
         cutoff = rng.random() < 0.5
         if not cutoff:
             wire += b"0\r\n\r\n"
@@ -491,7 +491,7 @@ def _gen_deliver(rng, level=None, preload=None):
     if kind == "chunked":
         pts = sorted(set(rng.randrange(1, len(body)) for _ in range(rng.choice([0, 1, 2, 4])))) if len(body) > 1 else []
         chunks = K.cut(body, pts)
-        wire = b"".join(b"%x\r\n" % len(c) + c + b"\r\n" for c in chunks) + b"0\r\n\r\n"
+        wire = _enc_chunks(chunks, rng)
         case["chunks"] = [h(c) for c in chunks]
     else:
         wire = body
@@ -517,6 +517,16 @@ def _hist(init, conns):
     return {"mode": "history", "init": init, "conns": out}
 
 
+def _enc_chunks(chunks, rng=None, final=True, spell=None):
+    """chunked coding of the data chunks; the size of each chunk is written by spell(n) (default: any spelling a
+    sender may use -- lower, UPPER or miXed case hex letters, leading zeros, blank padding -- drawn from rng)"""
+    out = b""
+    for c in chunks:
+        size = spell(len(c)) if spell else (K._spell_hex(rng, len(c)) if rng else b"%x" % len(c))
+        out += size + b"\r\n" + c + b"\r\n"
+    return out + (b"0\r\n\r\n" if final else b"")
+
+
 def _chunked_case(chunks, cuts=None):
     wire = b"".join(b"%x\r\n" % len(c) + c + b"\r\n" for c in chunks) + b"0\r\n\r\n"
     return {"mode": "chunked", "chunks": [h(c) for c in chunks],
@@ -532,6 +542,21 @@ def directed():
         out.append({"mode": "until", "reads": [h(x) for x in K.cut(s, cuts)]})
     out.append(_chunked_case([s[:7], s[7:8], s[8:40], s[40:]]))
     out.append(_chunked_case([s[:7], s[7:8], s[8:40], s[40:]], list(range(1, 60))))
+    # chunk sizes as senders spell them: lower, UPPER, miXed case, leading zeros, blank padding; chunks of 10..255+
+    # bytes so that the size needs hex letters (seeded C15-12: upper-case letters rejected)
+    ev = b"id: 7\ndata: 0123456789abcdefghijklmnop\n\n"            # 43 bytes = 0x2b
+    big = [ev[:13], ev[13:26] + ev[26:], ev * 4, ev[:10], ev[10:] + ev * 6 + b"retry: 12\n\n"]   # d, 1e, ac, a, 12e
+    for name, spell in (("lower", lambda n: b"%x" % n), ("upper", lambda n: b"%X" % n),
+                        ("mixed", lambda n: bytes(c - 32 if 97 <= c <= 102 and i % 2 == 0 else c for i, c in enumerate(b"%x" % n))),
+                        ("zeros", lambda n: b"00%X" % n), ("padded", lambda n: b" %X\t" % n)):
+        wire = _enc_chunks(big, spell=spell)
+        for cuts in ([], K.interesting_cuts(wire)):
+            out.append({"mode": "chunked", "chunks": [h(c) for c in big], "reads": [h(x) for x in K.cut(wire, cuts)]})
+        hc = {"mode": "history", "init": {"leid": "3", "retry": None},
+              "conns": [{"mode": "chunked", "reads": [h(x) for x in K.cut(wire, [5, 40, 200])], "cut": False}]}
+        out.append(hc)
+        out.append({"mode": "deliver", "level": "client", "body": "chunked", "preload": 1, "chunks": [h(c) for c in big],
+                    "reads": [h(x) for x in K.cut(wire, [30, 300])]})
     # D14 witnesses: CRLF split between reads / chunks; mixed terminators
     out.append({"mode": "plain", "reads": [h(b"data: x\r"), h(b"\n\r"), h(b"\ndata: y\r\n\r\n")]})
     out.append(_chunked_case([b"data: x\r", b"\n\r", b"\ndata: y\r\n\r\n"]))
